@@ -219,6 +219,30 @@ def register(reg):
                  note='compressed numeric column: scaled raws, minimum, 6-bit width, differences; all ones marks exactly the missing entries; '
                       'width 0 exactly when all subsets agree'))
 
+    # compressed new reference value (203YYY): ONE sign-magnitude field of YYY bits shared by all subsets, difference width 0
+    C0 = colval('0')
+    NRC_UNFIT = '(is_int(%s) and abs(ival(%s)) >= pow2(nbits_min_value - 1))' % (C0.replace(K0, 'state.idx_value'), C0.replace(K0, 'state.idx_value'))
+    add(Contract(M + 'Encoder.process_new_refval_compressed',
+                 {'self': ENC, 'state': S, 'bit_writer': W, 'descriptor': DESC, 'nbits_min_value': INT},
+                 requires=['state.decoded_descriptors != None', '%s != None' % ALL, '%s >= 1' % N, 'state.n_subsets == %s' % N, 'bit_writer != None',
+                           '0 <= state.idx_value', 'forall(j, 0, %s, state.idx_value < len(select(%s, j)))' % (N, ALL),
+                           'forall(j, 0, %s, is_none(%s) or is_int(%s))' % (N, 'select(select(%s, j), state.idx_value)' % ALL, 'select(select(%s, j), state.idx_value)' % ALL),
+                           '2 <= nbits_min_value <= 64', 'state.new_refvals != None', 'descriptor != None'],
+                 modifies=COLMOD + ['dict(state.new_refvals)'],
+                 ensures=['len(state.decoded_descriptors) == %s + 1' % L0, 'select(state.decoded_descriptors, %s) is descriptor' % L0,
+                          'state.idx_value == %s + 1' % K0, 'unchanged(state, "idx_value")',
+                          'prefix_same(%s, old(%s), %s)' % (BITS, BITS, P0),
+                          'wlen(bit_writer) == %s + nbits_min_value + 6' % P0,
+                          # sign bit, then the magnitude in YYY - 1 bits; then a zero difference width
+                          'U(%s, %s, 1) == ite(ival(%s) < 0, 1, 0)' % (BITS, P0, C0), 'U(%s, %s + 1, nbits_min_value - 1) == abs(ival(%s))' % (BITS, P0, C0),
+                          'U(%s, %s + nbits_min_value, 6) == 0' % (BITS, P0),
+                          'haskey(state.new_refvals, descriptor.id) and val_eq(dval(state.new_refvals, descriptor.id), %s)' % C0],
+                 raises={'ValueError': NRC_UNFIT, 'AssertionError': None},
+                 must_raise=[('AssertionError', 'not (%s) or (%s)' % (AGREE.replace(K0, 'state.idx_value'), ALLMISS.replace(K0, 'state.idx_value')))],
+                 serves=['C02', 'C05', 'C10'],
+                 note='compressed new reference value: sign-magnitude like the uncompressed one (a negative value is legal), identical in all '
+                      'subsets and never missing (refused otherwise)'))
+
     # ------------------------------------------------------------------------------------------------------------
     DALL, VALL, LALL = 'state.decoded_descriptors_all_subsets', 'state.decoded_values_all_subsets', 'state.bitmap_links_all_subsets'
     MSG_C = 'oval(bufr_message._is_compressed.value)'
